@@ -50,6 +50,8 @@ def strategy_(g):
     case["coarse_first"] = g.choice([False, False, False, True])
     # staged optimisation on ONE Graph object: some free vertices are held for a first (single-iteration) run and released afterwards
     case["staged"] = []
+    # the edge objects may come from an earlier graph (other Vertex objects with the same ids) that was optimised before
+    case["edges_reused"] = g.choice([False, False, False, True])
     if g.choice([False, False, False, True]):
         ff = case["fix_first"]
         free = [i for i, v in enumerate(case["verts"]) if not (v["fixed"] or (ff and i == 0))]
@@ -77,6 +79,10 @@ def check(case, ctx):
     fixed = GC.expected_fixed(case, ff)
     tol = case["tol"]
     g = GG.build(case)
+    if case.get("edges_reused"):
+        ctx.event("edge-objects-reused-from-an-optimised-graph")
+        GC.optimize_quiet(g, tol=1e-2, max_iter=3, fix_first_pose=ff, verbose=False)
+        g = gs.Graph(g._edges, GG.build(case)._vertices)
     if case.get("staged"):
         # first stage: hold some vertices (fixed=True), take one iteration, release them; the run examined below starts from there
         ctx.event("staged:hold-then-release")
